@@ -432,9 +432,21 @@ func (g *gen) qrcFor(r, v int64) []core {
 		if claimPrepared {
 			c.Pr, c.Pv = pr, v
 		}
-		rcs = append(rcs, c)
-		if g.rng.Chance(1, 6) { // equivocating ROUND-CHANGE of the same member
-			rcs = append(rcs, core{Typ: 4, Src: b, Round: r, Pr: pr + 1, Pv: g.someValue()})
+		switch g.rng.Intn(8) {
+		case 0: // a ROUND-CHANGE claiming a HIGHER prepared round than the attached PREPARE set (J2 must refuse)
+			rcs = append(rcs, core{Typ: 4, Src: b, Round: r, Pr: pr + 1 + int64(g.rng.Intn(2)), Pv: g.someValue()})
+		case 1: // equivocating ROUND-CHANGEs of the same member, the higher claim first
+			rcs = append(rcs, core{Typ: 4, Src: b, Round: r, Pr: pr + 1, Pv: g.someValue()}, c)
+		case 2: // ... or second
+			rcs = append(rcs, c, core{Typ: 4, Src: b, Round: r, Pr: pr + 1, Pv: g.someValue()})
+		default:
+			rcs = append(rcs, c)
+		}
+	}
+	if g.rng.Chance(1, 3) { // attachments in another order (the receiver takes the first per source)
+		for i := len(rcs) - 1; i > 0; i-- {
+			j := g.rng.Intn(i + 1)
+			rcs[i], rcs[j] = rcs[j], rcs[i]
 		}
 	}
 	if claimPrepared {
